@@ -162,6 +162,8 @@ type Run struct {
 	ConnectErr error
 	RC         *mqtt.RetryClient
 	StatsEnd   mqtt.RetryStats
+	HungCall   string // an API call that is not supposed to block did not return within 3 watchdogs
+	hung       int32
 	GoDump     string
 	Clients    map[int]*mqtt.BaseClient // by connection id
 	Cli        mqtt.Client
@@ -368,6 +370,8 @@ func Exec(sc *Scenario) *Run {
 	}
 	r.RC = retry
 	var submitFromHandler func(n int, st Step)
+	var handlerOf func(h int) mqtt.Handler
+	var cli mqtt.Client
 	handler := func(h int) mqtt.Handler {
 		if h == 0 {
 			return nil
@@ -378,6 +382,12 @@ func Exec(sc *Scenario) *Run {
 			r.Handled = append(r.Handled, Handled{H: h, Topic: m.Topic, Payload: string(m.Payload), QoS: byte(m.QoS), Seq: seq})
 			nh := len(r.Handled)
 			tr.Mu.Unlock()
+			if h >= 80 && h < 89 {
+				// a one-shot handler: it installs its successor from inside the callback (reader goroutine)
+				cs := tr.Call("Handle", fmt.Sprint(h+1))
+				cli.Handle(handlerOf(h + 1))
+				tr.Ret(cs, "Handle", fmt.Sprint(h+1), nil)
+			}
 			if h >= 90 && h < 100 && !strings.HasPrefix(m.Topic, "t/re-") {
 				// a responding handler: it publishes (QoS 1 or 2) through the retrying client from inside the
 				// reader goroutine; the response is an accepted request like any other
@@ -386,7 +396,7 @@ func Exec(sc *Scenario) *Run {
 		})
 	}
 
-	var cli mqtt.Client
+	handlerOf = handler
 	ctx, cancel := context.WithCancel(context.Background())
 	if sc.KeepOpen {
 		r.finishCtx, r.cancelAll = ctx, cancel
@@ -403,13 +413,39 @@ func Exec(sc *Scenario) *Run {
 	var submMu sync.Mutex
 	var stormStop chan struct{}
 	var stormWG sync.WaitGroup
+	// guard runs an API call that is not supposed to block for long; if it has not returned after three
+	// watchdogs the run is wound up (certified stuck or inconclusive) instead of hanging the worker
+	guard := func(name string, fn func()) bool {
+		if atomic.LoadInt32(&r.hung) != 0 {
+			return false
+		}
+		done := make(chan struct{})
+		go func() { defer close(done); fn() }()
+		select {
+		case <-done:
+			return true
+		case <-time.After(3 * Watchdog):
+			tr.Note("API call %s has not returned for %v", name, 3*Watchdog)
+			if atomic.CompareAndSwapInt32(&r.hung, 0, 1) {
+				r.HungCall = name
+			}
+			return false
+		}
+	}
 	submit := func(idx int, st Step) *Submission {
 		sb := &Submission{Idx: idx, Step: st}
+		if atomic.LoadInt32(&r.hung) != 0 {
+			return sb
+		}
 		switch st.Op {
 		case "pub":
 			sb.CallSeq = tr.Call("Publish", st.Tag)
 			m := &mqtt.Message{Topic: "t/" + st.Tag, Payload: []byte(st.Tag), QoS: mqtt.QoS(st.QoS), Retain: st.Retain, Dup: st.Dup, ID: st.ID}
-			sb.Err = cli.Publish(ctx, m)
+			var err error
+			if !guard("Publish "+st.Tag, func() { err = cli.Publish(ctx, m) }) {
+				return sb
+			}
+			sb.Err = err
 			sb.RetSeq = tr.Ret(sb.CallSeq, "Publish", st.Tag, sb.Err)
 		case "sub":
 			sb.CallSeq = tr.Call("Subscribe", st.Key())
@@ -417,15 +453,25 @@ func Exec(sc *Scenario) *Run {
 			for _, s := range st.Subs {
 				subs = append(subs, mqtt.Subscription{Topic: s.F, QoS: mqtt.QoS(s.Q)})
 			}
-			_, sb.Err = cli.Subscribe(ctx, subs...)
+			var err error
+			if !guard("Subscribe "+st.Key(), func() { _, err = cli.Subscribe(ctx, subs...) }) {
+				return sb
+			}
+			sb.Err = err
 			sb.RetSeq = tr.Ret(sb.CallSeq, "Subscribe", st.Key(), sb.Err)
 		case "unsub":
 			sb.CallSeq = tr.Call("Unsubscribe", st.Key())
-			sb.Err = cli.Unsubscribe(ctx, st.Filters...)
+			var err error
+			if !guard("Unsubscribe "+st.Key(), func() { err = cli.Unsubscribe(ctx, st.Filters...) }) {
+				return sb
+			}
+			sb.Err = err
 			sb.RetSeq = tr.Ret(sb.CallSeq, "Unsubscribe", st.Key(), sb.Err)
 		case "handle":
 			sb.CallSeq = tr.Call("Handle", fmt.Sprint(st.H))
-			cli.Handle(handler(st.H))
+			if !guard("Handle "+fmt.Sprint(st.H), func() { cli.Handle(handler(st.H)) }) {
+				return sb
+			}
 			sb.RetSeq = tr.Ret(sb.CallSeq, "Handle", fmt.Sprint(st.H), nil)
 		case "down":
 			tr.Mu.Lock()
@@ -512,6 +558,17 @@ func Exec(sc *Scenario) *Run {
 				tr.AddLocked(memnet.Event{Kind: memnet.KNote, Conn: br.Cur.ID, S: "connection never answers PINGREQ again"})
 			}
 			tr.Mu.Unlock()
+		case "switch":
+			// make-before-break (hand-written loops only): a new client is dialled and installed with SetClient
+			// while the current connection is still open
+			if rl, ok := cli.(*retryLoop); ok {
+				n0 := atomic.LoadInt32(&rl.switches)
+				select {
+				case rl.switchReq <- struct{}{}:
+				default:
+				}
+				tr.WaitFor(Watchdog/4, func() bool { return atomic.LoadInt32(&rl.switches) > n0 })
+			}
 		case "pingok":
 			tr.Mu.Lock()
 			br.SilentPingOnly = false
@@ -621,6 +678,32 @@ func Exec(sc *Scenario) *Run {
 		// RetryClient driven directly through the Retryer contract by a harness-owned loop
 		// (Dial, SetClient, Connect, Resubscribe/Retry in either order, wait for Done).
 		rl := &retryLoop{RetryClient: retry, d: d, sc: sc, tr: tr, base: base, max: max, to: to, stop: make(chan struct{}), done: make(chan struct{}), first: make(chan error, 1)}
+		rl.switchReq = make(chan struct{}, 1)
+		nsw := 0
+		rl.onSwitched = func() {
+			// the broker still considers the previous connection current (no packet on the new one yet): a
+			// message that was on its way arrives there
+			nsw++
+			tr.Mu.Lock()
+			old := br.Cur
+			from := len(tr.Events)
+			ok := br.PushLocked(InMsg{Tag: fmt.Sprintf("sw%d", nsw), QoS: 1})
+			tr.Mu.Unlock()
+			if !ok {
+				return
+			}
+			tr.WaitFor(Watchdog/10, func() bool {
+				if !old.OpenLocked() {
+					return true
+				}
+				for _, e := range tr.Events[from:] {
+					if e.Kind == memnet.KWrite && e.Conn == old.ID && e.Pkt != nil && e.Pkt.Type == mqttref.PUBACK {
+						return true
+					}
+				}
+				return false
+			})
+		}
 		cli = rl
 		r.Cli = rl
 	default:
@@ -628,8 +711,34 @@ func Exec(sc *Scenario) *Run {
 		return r
 	}
 
+	// windUp ends a run in which an API call hung: certified stuck (the monitors judge what was accepted before) or
+	// inconclusive
+	windUp := func() *Run {
+		if r.certifyStuck() {
+			r.Stuck = true
+		} else {
+			r.Inconcl = "API call " + r.HungCall + " did not return within the watchdog and the system was still moving"
+		}
+		r.StatsEnd = safeStats(retry)
+		tr.Mu.Lock()
+		r.EndSeq = len(tr.Events)
+		r.FinalSubs = map[string]byte{}
+		for f, q := range br.Subs {
+			r.FinalSubs[f] = q
+		}
+		tr.Mu.Unlock()
+		if stormStop != nil {
+			close(stormStop)
+			stormStop = nil
+		}
+		r.finish(cli, ctx)
+		return r
+	}
 	for i, st := range sc.Pre {
 		submit(i, st)
+	}
+	if atomic.LoadInt32(&r.hung) != 0 {
+		return windUp()
 	}
 	cctx, ccancel := context.WithTimeout(ctx, 3*Watchdog)
 	cs := tr.Call("Connect", "")
@@ -638,12 +747,28 @@ func Exec(sc *Scenario) *Run {
 	ccancel()
 	r.ConnectErr = err
 	if err != nil {
+		if IsDeadline(err) && r.certifyStuck() {
+			// Connect itself never returned and nothing can move any more: a certified-stuck run like any other
+			// (the monitors judge what was accepted / registered before)
+			tr.Note("Connect did not return within the watchdog; system certified stuck")
+			r.Stuck = true
+			r.StatsEnd = safeStats(retry)
+			tr.Mu.Lock()
+			r.EndSeq = len(tr.Events)
+			r.FinalSubs = map[string]byte{}
+			tr.Mu.Unlock()
+			r.finish(cli, ctx)
+			return r
+		}
 		r.Inconcl = "first connection not established within the watchdog: " + err.Error()
 		r.finish(cli, ctx)
 		return r
 	}
 	for i, st := range sc.Steps {
 		submit(len(sc.Pre)+i, st)
+		if atomic.LoadInt32(&r.hung) != 0 {
+			return windUp()
+		}
 	}
 	if sc.SteerAt != "" {
 		// the steered submissions must precede the sentinel
@@ -670,6 +795,9 @@ func Exec(sc *Scenario) *Run {
 	tr.Mu.Unlock()
 	if !sc.NoSentinel {
 		submit(9999, Step{Op: "pub", QoS: 1, Tag: Sentinel})
+		if atomic.LoadInt32(&r.hung) != 0 {
+			return windUp()
+		}
 		// Bounded progress instead of a time bound: after stabilisation every connection is healthy,
 		// so a correct client needs one (a few) connection(s) to complete what is pending. If
 		// LivelockConns accepted connections come and go without the sentinel being acknowledged,
@@ -701,6 +829,9 @@ func Exec(sc *Scenario) *Run {
 				}
 			}
 			submit(9998, Step{Op: "pub", QoS: 1, Tag: Sentinel2})
+			if atomic.LoadInt32(&r.hung) != 0 {
+				return windUp()
+			}
 			ok = tr.WaitFor(Watchdog, func() bool { return AckConsumedLocked(tr, "P:"+Sentinel2) })
 		}
 		if ok {
@@ -870,9 +1001,9 @@ func (r *Run) certifyStuck() bool {
 	if wait > 45*time.Second {
 		wait = 45 * time.Second
 	}
-	s1, st1 := snap(), r.RC.Stats()
+	s1, st1 := snap(), safeStats(r.RC)
 	time.Sleep(wait)
-	s2, st2 := snap(), r.RC.Stats()
+	s2, st2 := snap(), safeStats(r.RC)
 	if s1 != s2 || st1 != st2 {
 		return false
 	}
@@ -895,6 +1026,19 @@ func (r *Run) certifyStuck() bool {
 		}
 	}
 	return true
+}
+
+// safeStats is RetryClient.Stats with a guard: when the client's lock is held forever (which is what a stuck
+// run may well be about) it gives up and reports zero values with TotalTasks = -1.
+func safeStats(rc *mqtt.RetryClient) mqtt.RetryStats {
+	ch := make(chan mqtt.RetryStats, 1)
+	go func() { ch <- rc.Stats() }()
+	select {
+	case st := <-ch:
+		return st
+	case <-time.After(2 * time.Second):
+		return mqtt.RetryStats{TotalTasks: -1}
+	}
 }
 
 func libGoroutines(dump string) string {
@@ -1003,7 +1147,10 @@ type retryLoop struct {
 	stop, done    chan struct{}
 	first         chan error
 	stopOnce      sync.Once
-	setupPending  int32 // connections whose Resubscribe/Retry tasks have not both been pushed yet
+	setupPending  int32         // connections whose Resubscribe/Retry tasks have not both been pushed yet
+	switchReq     chan struct{} // make-before-break requested (step "switch")
+	switches      int32         // completed make-before-break switches
+	onSwitched    func()        // called after SetClient(new) while the old connection is still open
 	chaosN        uint32
 }
 
@@ -1043,6 +1190,7 @@ func (l *retryLoop) run(clientID string, opts []mqtt.ConnectOption) {
 		}
 		return true
 	}
+	var oldCli *mqtt.BaseClient
 	for {
 		select {
 		case <-l.stop:
@@ -1057,7 +1205,7 @@ func (l *retryLoop) run(clientID string, opts []mqtt.ConnectOption) {
 			continue
 		}
 		atomic.AddInt32(&l.setupPending, 1) // until Resubscribe/Retry of this connection are both pushed
-		if l.sc.Client == "retry-chaotic" && l.chaos(3) == 0 {
+		if l.sc.Client == "retry-chaotic" && l.chaos(3) == 0 && oldCli == nil {
 			// a dialled client is handed to SetClient and then abandoned without connecting it
 			l.RetryClient.SetClient(ctx, baseCli)
 			baseCli.Close()
@@ -1066,9 +1214,23 @@ func (l *retryLoop) run(clientID string, opts []mqtt.ConnectOption) {
 			continue
 		}
 		l.RetryClient.SetClient(ctx, baseCli)
+		if oldCli != nil {
+			// make-before-break: the previous connection is still open; whatever arrives on it now must still
+			// reach the application
+			l.tr.Note("make-before-break: new client installed, previous connection still open")
+			if l.onSwitched != nil {
+				l.onSwitched()
+			}
+		}
 		cctx, cancel := context.WithTimeout(ctx, time.Duration(l.to)*time.Millisecond)
 		sp, err := l.RetryClient.Connect(cctx, clientID, opts...)
 		cancel()
+		if oldCli != nil {
+			oldCli.Close() // (a broker would end the previous connection of the same client id now)
+			<-oldCli.Done()
+			oldCli = nil
+			atomic.AddInt32(&l.switches, 1)
+		}
 		if err != nil {
 			atomic.AddInt32(&l.setupPending, -1)
 			baseCli.Close()
@@ -1119,6 +1281,9 @@ func (l *retryLoop) run(clientID string, opts []mqtt.ConnectOption) {
 			}
 		case <-l.stop:
 			return
+		case <-l.switchReq:
+			oldCli = baseCli
+			continue
 		}
 		if !sleep() {
 			return
